@@ -856,7 +856,10 @@ def op_dtor(ctx, add, label, rt, site):
     fr = [(n, p) for n, p in ctx.ev if p[0] == 'free']
     lg = as_logical(ctx, rg[0][1]) if len(rg) == 1 else None
     ok = lg is not None and ctx.eq(lg[0], Lin.const(0)) and ctx.eq(lg[1], S_)
-    add('RB.8', ok, f'{label}: destroys logical [0, size)', rg[0][0].shortloc() if rg else site, '' if ok else f'destructor destroys {[(p[2], str(p[3]), str(p[4])) for n, p in rg]}: ' + ('elements stay alive' if not rg else 'slots holding no element are destroyed / live ones are skipped'), key='RB.8|dtor-range')
+    if not rg and not ctx.is_class:
+        # elements of a trivially destructible type have no destructor to run (the compiler's trait, as in AR.4): skipping the loop is the same program
+        add('RB.8', True, f'{label}: the elements are trivially destructible: nothing to destroy', site, key='RB.8|dtor-range')
+    else: add('RB.8', ok, f'{label}: destroys logical [0, size)', rg[0][0].shortloc() if rg else site, '' if ok else f'destructor destroys {[(p[2], str(p[3]), str(p[4])) for n, p in rg]}: ' + ('elements stay alive' if not rg else 'slots holding no element are destroyed / live ones are skipped'), key='RB.8|dtor-range')
     ok = len(fr) == 1 and isinstance(fr[0][1][1], Ptr) and fr[0][1][1].base == 'data0' and (not rg or ctx.P.events.index(('c', fr[0][0], fr[0][1])) > ctx.P.events.index(('c', rg[0][0], rg[0][1])))
     add('RB.8', ok, f'{label}: frees the storage after destroying the elements', fr[0][0].shortloc() if fr else site, '' if ok else 'storage is not freed exactly once after the elements', key='RB.8|dtor-free')
 
